@@ -213,6 +213,8 @@ struct Client {
 	abandon_after_hello: bool,
 	reset_mid_record: bool,
 	literal: Option<Vec<u8>>,
+	/// server name the client asks for (None = the plan's default; Some("") = no SNI extension)
+	sni: Option<String>,
 	finished: bool,
 	steps: u32,
 }
@@ -418,6 +420,7 @@ impl<'a> Incoming<'a> {
 				"http" => Some(b"GET / HTTP/1.1\r\nHost: example.org\r\nUser-Agent: probe\r\n\r\n".to_vec()),
 				_ => None,
 			},
+			sni: b["sni"].as_str().map(|s| s.to_string()),
 			finished: false,
 			steps: 0,
 		}
@@ -512,10 +515,15 @@ impl<'a> Incoming<'a> {
 		let state = std::mem::replace(&mut self.clients[i].tls, Tls::Failed("taken".into()));
 		let next = match state {
 			Tls::NotStarted => {
-				let sni = self.l.plan["expect"]["sni"].as_str().unwrap_or("example.org").to_string();
+				let default_sni = self.l.plan["expect"]["sni"].as_str().unwrap_or("example.org").to_string();
+				let (sni, send_sni) = match &self.clients[i].sni {
+					Some(s) if s.is_empty() => (default_sni, false),
+					Some(s) => (s.clone(), true),
+					None => (default_sni, true),
+				};
 				let pipe = ClientPipe { id: conn, w: self.l.w.clone(), staged: self.clients[i].staged.clone(), trickle: self.clients[i].trickle };
 				let connector = self.connector(&self.clients[i].alpn);
-				let cfg = connector.configure().unwrap().verify_hostname(false).use_server_name_indication(true);
+				let cfg = connector.configure().unwrap().verify_hostname(false).use_server_name_indication(send_sni);
 				match cfg.connect(&sni, pipe) {
 					Ok(s) => Tls::Done(s),
 					Err(HandshakeError::WouldBlock(mid)) => Tls::Mid(mid),
